@@ -237,8 +237,11 @@ class Repo:
             self.modules[name] = Module(name, rel, src)
         self.refresh_class_index()
         self.inliner = None
+        self.renamed = {}
         if inline:
-            from .inline import flatten
+            from .inline import flatten, load_inventory
+            from .unrename import recover
+            self.renamed = recover(self, load_inventory())
             self.inliner = flatten(self)
 
     def refresh_class_index(self):
